@@ -647,7 +647,7 @@ func c08Judge(c *wk.Ctx, t *c08Transcript, f c08Fault, res *c08Outcome, wit map[
 }
 
 func runC08(c *wk.Ctx) {
-	c.Meta("rule", "server transcripts (v3: one run; serial ok/fail/ok; 3 concurrent with emitted signals, non-fatal errors and out-of-order results; server-fatal error midway; trailing error then another run. v1: two serial runs. hellos with unsupported versions and with schemas that do not unserialize) are replayed by a fake server whose messages are released when the client's matching request has arrived. Faults: the server->client stream is cut at byte offset k with {EOF, read error, garbage tail then EOF} for EVERY k of the runtime part and every k (thorough) / every 5th k plus message boundaries +-1 (quick) of the hello; the client->server write side fails independently from write #j on; a single byte of one runtime message is flipped (5 masks), the rest of that message is delivered and the stream then ends - only panics, hangs and return counts are judged for these. Transports buffered and chunked. Oracle: recovered/fatal panics; quiescence monitor (a call that never returns after the faulty stream was delivered); an Execute may only report success if its work-done ended at or before k, and then with exactly the transcript's result; ReadSchema likewise. non-trivial = cut strictly inside the stream or a write fault; distinct = hash(transcript, fault, transport)")
+	c.Meta("rule", "server transcripts (v3: one run; serial ok/fail/ok; 3 concurrent with emitted signals, non-fatal errors and out-of-order results; server-fatal error midway; trailing error then another run. v1: two serial runs. hellos with unsupported versions and with schemas that do not unserialize) are replayed by a fake server whose messages are released when the client's matching request has arrived. Faults: the server->client stream is cut at byte offset k with {EOF, read error, garbage tail then EOF} for EVERY k of the runtime part and every k (thorough) / every 5th k plus message boundaries +-1 (quick) of the hello; the client->server write side fails independently from write #j on; a single byte of one runtime message is flipped (5 masks), the rest of that message is delivered and the stream then ends - only panics, hangs and return counts are judged for these. Transports buffered and chunked. Oracle: recovered/fatal panics; quiescence monitor (a call that never returns after the faulty stream was delivered); an Execute may only report success if its work-done ended at or before k, and then with exactly the transcript's result; ReadSchema likewise. non-trivial = cut strictly inside the stream or a write fault; distinct = hash(transcript, fault, transport) Fault kind read-timeout: from offset k on every read fails with an error whose Timeout() is true (an expired deadline stays expired); transcripts bad-schema-*-plugin-goes-on: a hello whose schema does not load, from a plugin that talks on - later calls must fail. A call that computes forever is the driver's CPU-time verdict (60 s on one journalled session).")
 	c.Meta("assumptions", []string{"in-payload bit corruption is undetectable without a checksum and is not demanded; the garbage fault replaces the rest of the stream",
 		"garbage tails start with bytes that are not a complete valid runtime message"})
 	c.Floor("replays", 500)
